@@ -20,7 +20,7 @@ RULE = ("Pairs (a, b) built from a planted alignment: b = a with substitutions, 
         "a != b and OPT has >= 1 gap; uncertified cases are counted as discards.")
 ASSUMPTIONS = ["the oracle's scoring model (validated by brute-force enumeration for lengths <= 5 in tools/selftest_oracle.py)",
                "groups: Sellers distance(a,b) >= 1, otherwise the guide tree need not join the copies first (then k = l = 1)"]
-BUDGET = {"quick": dict(examples=600, workers=12, seconds=80), "thorough": dict(examples=1300, workers=16, seconds=840)}
+BUDGET = {"quick": dict(examples=1600, workers=12, seconds=80), "thorough": dict(examples=1300, workers=16, seconds=840)}
 
 SET_FOR = {("dna", 0): "dna", ("dna", 1): "internal", ("dna", 2): "rna", ("dna", 5): "rna",
            ("protein", 3): "protein", ("protein", 4): "divergent", ("protein", 5): "protein"}
